@@ -8,6 +8,8 @@ import JominiModel.Proofs.BinTapeNested
 import JominiModel.Proofs.BinTapeCut
 import JominiModel.Proofs.BinTapeMirror
 import JominiModel.Proofs.BinTapeReuse
+import JominiModel.Proofs.BinTapeDropped
+import JominiModel.Proofs.BinTapeDead
 /-
 C03 — the binary tape mirrors the token stream; the fast paths are unobservable.
 Only property theorems live here; helper lemmas are in `Proofs/BinTape*.lean`.
@@ -151,6 +153,64 @@ theorem C03_tape_mirrors_lexemes (opt : Bool) (data : Bytes) (T : Tape) (h : par
     (L : List Lx) (hL : Lexes data L) : (flat T).Sublist L :=
   parse_mirror opt data T h L hL
 
+/-- **The `debug_assert!(false, …)` arms of tape.rs are unreachable** (coverage: lines 249, 658-682).
+For every input and every state `st` the plain loop reaches from the initial variables (the iteration
+heads of the optimised loop are among them, `C03_iter_sim`):
+* in `KeyValueSeparator` (`}` after a lone key → `mixed_insert1`) and in `ObjectToArray`
+  (→ `mixed_insert2`) the tape holds the one / two tokens to be moved: the "empty token tape" arms
+  (lines 658-682) cannot fire;
+* in `OpenSecond` (`=` after the first scalar of a container) and in `ArrayValue` when the
+  only_empties rewrite applies, the parent slot holds an `Array`: the "expected an array to be
+  present" arm of `set_parent_to_object` (line 249) cannot fire;
+* the two `set_parent_to_object` calls inside the key fast paths act on the `Array` pushed two
+  tokens earlier;
+and no run of either parser ends in the `ub` / `panic` outcome that models those arms. -/
+theorem C03_debug_asserts_unreachable (data : Bytes) :
+    (∀ st, Reach (init data) st →
+      (st.state = .keyValueSeparator → ∃ t', mixedInsert1 st.tape = .ok t') ∧
+      (st.state = .objectToArray → ∃ t', mixedInsert2 st.tape = .ok t') ∧
+      (st.state = .openSecond → ∃ t', setParentToObject st.tape st.parent = .ok t') ∧
+      (st.state = .arrayValue → ∀ t1 last, pop? st.tape = some (t1, last) → (∀ e, last ≠ .array e) →
+        (∀ i, last ≠ .end_ i) → ∃ t', setParentToObject t1 st.parent = .ok t')) ∧
+    (∀ (T : Tape) (p t : Nat),
+      setParentToObject (T ++ [.array p] ++ [.token t]) T.length = .ok (T ++ [.object p] ++ [.token t])) ∧
+    (∀ opt, parse opt data ≠ .error .ub ∧ parse opt data ≠ .error .panic) :=
+  ⟨fun st h => debug_asserts_excluded (reach_inv h (init_inv data)), fast_setParent_ok,
+    fun opt => C05_bintape_no_ub_panic opt data⟩
+
+example : Reach (init [0x82, 0x2d, 0x11, 0x11]) ⟨[.token 0x2d82, .token 0x1111], 0, .objectToArray, []⟩ :=
+  ⟨2, rfl⟩
+
+/-- **What the tape leaves out, exactly — for every accepted byte string, the quirk included.**  The lexeme
+list `L` of the input is an interleaving (`InterT`: both parts in their original order) of the flattened
+tape and a list `D` of dropped lexemes, and every dropped lexeme carries its cause: `eqAfterKey` (it is an
+`=`: the one after a key, including the `=` that triggers the only_empties rewrite), `ghost` (a `{` or `}`
+of a ghost object in key position), `emptyRun` (a `{` or `}` of an empty container discarded by the
+only_empties rewrite, tape.rs:600-616), `oddToken` (the one token `chunks_exact(2)` overlooks in that
+rewrite — the pinned quirk).  Hence each input lexeme appears exactly once in tape ∪ dropped:
+`L` is a permutation of `flat T ++ dropped`, and `|L| = |flat T| + |dropped|`. -/
+theorem C03_dropped_lexemes (opt : Bool) (data : Bytes) (T : Tape) (h : parse opt data = .ok T)
+    (L : List Lx) (hL : Lexes data L) :
+    ∃ D : List (Lx × DropKind), InterT (flat T) D L ∧ (∀ p ∈ D, DropOk p) ∧
+      L.Perm (flat T ++ D.map Prod.fst) ∧ L.length = (flat T).length + D.length := by
+  obtain ⟨D, hi, hd⟩ := parse_dropped opt data T h L hL
+  refine ⟨D, hi, hd, hi.perm, ?_⟩
+  have := hi.perm.length_eq
+  simpa using this
+
+/-- the quirk, accounted for: `k = { {} a b = c }` — `a` is on no tape, it is the `oddToken` -/
+example :
+    let data : Bytes := [0x82, 0x2d, 1, 0, 3, 0, 3, 0, 4, 0, 0x11, 0x11, 0x22, 0x22, 1, 0, 0x33, 0x33, 4, 0]
+    parse true data = .ok [.token 0x2d82, .object 4, .token 0x2222, .token 0x3333, .end_ 1] ∧
+    Lexes data [.tok (.token 0x2d82), .equal, .open_, .open_, .close, .tok (.token 0x1111), .tok (.token 0x2222),
+      .equal, .tok (.token 0x3333), .close] ∧
+    InterT (flat [.token 0x2d82, .object 4, .token 0x2222, .token 0x3333, .end_ 1])
+      [(.equal, .eqAfterKey), (.open_, .emptyRun), (.close, .emptyRun), (.tok (.token 0x1111), .oddToken), (.equal, .eqAfterKey)]
+      [.tok (.token 0x2d82), .equal, .open_, .open_, .close, .tok (.token 0x1111), .tok (.token 0x2222),
+        .equal, .tok (.token 0x3333), .close] :=
+  ⟨rfl, .cons rfl (.cons rfl (.cons rfl (.cons rfl (.cons rfl (.cons rfl (.cons rfl (.cons rfl (.cons rfl (.cons rfl (.done rfl)))))))))),
+   .left _ (.right (_, _) (.left _ (.right (_, _) (.right (_, _) (.right (_, _) (.left _ (.right (_, _) (.left _ (.left _ .nil)))))))))⟩
+
 /-- hypotheses satisfiable, on a tolerated malformation: `id = { I32 5 I32 6 = I32 7 }` (`=` inside an
 array): the tape, its flattening, and the lexeme list of the input (here only the `=` after the key is
 left out) -/
@@ -162,15 +222,21 @@ example :
     Lexes data [.tok (.token 0x2d82), .equal, .open_, .tok (.i32 5), .tok (.i32 6), .equal, .tok (.i32 7), .close] :=
   ⟨rfl, rfl, .cons rfl (.cons rfl (.cons rfl (.cons rfl (.cons rfl (.cons rfl (.cons rfl (.cons rfl (.done rfl))))))))⟩
 
-/-- **Fresh or previously used tape.**  `parseInto opt prev data` models
-`parse_slice_into_tape(data, &mut tape)` on a vector `prev` that was used before (`VecS`: the
-allocation with its stale contents, and the length).  The result is the one of a fresh tape, whatever
-`prev` holds; and no run reads the vector outside its length (`ub` never occurs), so the stale
-contents are never observed.  (`Proofs/BinTapeReuse.lean`: every vector primitive of the parser acts
-on the view like the list operation of the model, independently of the capacity contents.) -/
-theorem C03_reuse (opt : Bool) (prev : VecS) (data : Bytes) :
+/-- **Fresh or previously used tape — through the loop.**  `parseInto opt prev data` models
+`parse_slice_into_tape(data, &mut tape)` on a vector `prev` that was used before: `VecS` is the
+allocation with its stale contents plus the length; the vector is cleared, `Equal` is raw-written into
+slot 0, and then THE LOOP RUNS ON THE VECTOR ITSELF (`runV`/`iterV`/`keyFastV`/`dispatchV`/…,
+Model/BinTapeVec.lean — the whole parser re-stated against the vector primitives: bounds-checked
+accesses see the view, `get_unchecked(_mut)` sees whatever the allocation holds, the raw writes of the
+only_empties / mixed rewrite write into the allocation and `set_len`).  This is the function the driver
+runs for `btreuse`.  The result is the one of a fresh tape, whatever `prev` holds (`prev.Wf`: its length
+does not exceed its allocation).  Proof (Proofs/BinTapeReuse.lean): every vector primitive acts on the
+view like the list operation; function by function the vector model is simulated by the list model
+unless the latter answers `ub` (`run_simV`); and `ub` — an unchecked read outside the length, the only
+way to observe stale memory — never occurs (`C05_bintape_no_ub_panic`). -/
+theorem C03_reuse (opt : Bool) (prev : VecS) (hw : prev.Wf) (data : Bytes) :
     parseInto opt prev data = parse opt data ∧ parse opt data ≠ .error .ub :=
-  ⟨parseInto_eq opt prev data, (C05_bintape_no_ub_panic opt data).1⟩
+  ⟨parseInto_eq opt prev hw data, (C05_bintape_no_ub_panic opt data).1⟩
 
 example : parseInto true ⟨[.token 1, .array 3, .end_ 1, .token 9], 3⟩ [0x82, 0x2d, 1, 0, 0x0c, 0, 5, 0, 0, 0]
     = .ok [.token 0x2d82, .i32 5] := rfl
